@@ -23,13 +23,13 @@ import common  # noqa: F401  (puts the tree under test first on sys.path)
 
 
 def codes(s):
-    """text -> character codes of AsNum.tla (0..9 ASCII digits, 100+cp other, 2000000+cp non-ASCII Nd)."""
+    """text -> character codes of AsNum.tla (0..9 ASCII digits, 100+cp other, 2000000+cp non-ASCII numeric characters)."""
     out = []
     for ch in s:
         o = ord(ch)
         if 48 <= o <= 57:
             out.append(o - 48)
-        elif o > 127 and unicodedata.category(ch) == "Nd":
+        elif o > 127 and (ch.isnumeric() or unicodedata.category(ch)[0] == "N"):
             out.append(2000000 + o)
         else:
             out.append(100 + o)
@@ -43,8 +43,10 @@ def digits(n):
     return [ord(c) - 48 for c in n]
 
 
-def hexsalt(salt):
-    return "s" + salt.encode("utf-8").hex()
+def hexsalt(kind, salt):
+    """opaque salt identity; class-level and FileAnonymizer-level salts live in separate name spaces
+    (R does not demand that FileAnonymizer hands its salt to the class unchanged)."""
+    return kind[0] + salt.encode("utf-8").hex()
 
 
 def _outcome(e):
@@ -81,7 +83,7 @@ def execute(ops, insts=None):
             except Exception as e:
                 obj, outcome = None, _outcome(e)
             insts[i] = (kind, obj)
-            evs.append({"ev": "new", "inst": i, "salt": hexsalt(salt), "list": [digits(n) for n in lst],
+            evs.append({"ev": "new", "inst": i, "salt": hexsalt(kind, salt), "list": [digits(n) for n in lst],
                         "outcome": outcome})
         elif what == "anon":
             _, i, ns, learn = op
